@@ -90,6 +90,17 @@ func (p *Party) call(op, method, path string, hdr map[string]string, body []byte
 	if id, ok := hdr["__id"]; ok {
 		ev.ID = id
 	}
+	for k, v := range hdr {
+		if strings.HasPrefix(k, "__x_") {
+			if ev.Extra == nil {
+				ev.Extra = map[string]string{}
+			}
+			if len(v) > 300 {
+				v = v[:300]
+			}
+			ev.Extra[strings.TrimPrefix(k, "__x_")] = v
+		}
+	}
 	r.CallSeq = p.Log.Add(ev)
 	var rd io.Reader
 	if body != nil {
@@ -138,6 +149,16 @@ func (p *Party) call(op, method, path string, hdr map[string]string, body []byte
 	}
 	if err != nil {
 		ret.Extra = map[string]string{"err": trimErr(err)}
+	}
+	if resp.StatusCode >= 400 {
+		if ret.Extra == nil {
+			ret.Extra = map[string]string{}
+		}
+		bs := string(b)
+		if len(bs) > 240 {
+			bs = bs[:240]
+		}
+		ret.Extra["body"] = bs
 	}
 	r.RetSeq = p.Log.Add(ret)
 	return r
@@ -203,7 +224,7 @@ func (p *Party) Register(name string, events []string, features string) *Resp {
 }
 
 func (p *Party) RegisterRaw(name string, body []byte, features string) *Resp {
-	h := map[string]string{}
+	h := map[string]string{"__x_name": name, "__x_body": string(body)}
 	if name != "" {
 		h["Lambda-Extension-Name"] = name
 	}
